@@ -31,3 +31,4 @@ import PvModel.Props.C17Query
 #print axioms Pv.C16_label_step
 #print axioms Pv.C16_enforce_answers_sound
 #print axioms Pv.C16_query_answers_sound
+#print axioms Pv.C16_query_checked
